@@ -97,8 +97,8 @@ func checkC08(r *Run) error {
 	if err != nil {
 		return err
 	}
-	if err := r.decoders(nonMap, []basis.Options{{}}, func(o *vc.Obligation) bool {
-		return strings.Contains(o.Func, "DecodeBebop") || isMakeStream(o.Func)
+	if err := r.decoders(nonMap, []basis.Options{{}}, func(key string) bool {
+		return strings.Contains(key, "DecodeBebop") || isMakeStream(key)
 	}); err != nil {
 		return err
 	}
@@ -124,7 +124,7 @@ func isMake(k string) bool {
 }
 
 // decoders selects UnmarshalBebop, DecodeBebop and the Make* wrappers (MustUnmarshalBebop is exempt).
-func (r *Run) decoders(schemaOK func(*basis.Schema) bool, opts []basis.Options, classOK func(o *vc.Obligation) bool) error {
+func (r *Run) decoders(schemaOK func(*basis.Schema) bool, opts []basis.Options, funcOK func(key string) bool) error {
 	gs, err := r.genBasis(schemaOK, opts)
 	if err != nil {
 		return err
@@ -137,8 +137,11 @@ func (r *Run) decoders(schemaOK func(*basis.Schema) bool, opts []basis.Options, 
 		if strings.Contains(key, "Must") || strings.Contains(key, "must") {
 			return false
 		}
+		if funcOK != nil && !funcOK(key) {
+			return false
+		}
 		return strings.HasSuffix(key, ".UnmarshalBebop") || strings.HasSuffix(key, ".DecodeBebop") || isMake(key)
-	}, Keep: classOK}
+	}}
 	if err := r.verify(gs.E, pkgs, sel, false); err != nil {
 		return err
 	}
